@@ -6,6 +6,7 @@ import PasfmtModel.Proofs.CursorProps
 import PasfmtModel.Proofs.CursorProps2
 import PasfmtModel.Proofs.CursorBoundary
 import PasfmtModel.Model.Pipeline
+import PasfmtModel.Proofs.Utf8Pipeline
 
 namespace Pasfmt.C15
 
@@ -333,7 +334,9 @@ example :
   * `AsciiSettings S`: the line ending and the two indentation strings are ASCII — true of the
     settings of every configuration (`settings_ascii`);
   * `PiecesValid ft`: the text of every token is well-formed UTF-8, and so is the verbatim leading
-    whitespace of every ignored token (for scanned tokens: `C13.lex_char_boundaries`);
+    whitespace of every ignored token (for scanned tokens: `C13.lex_char_boundaries`; for the final
+    token state of the closed model `formatFull` on well-formed input: `formatFull_pieces_valid`,
+    fourth batch);
   * `noSafetyNetGo false ft = true`: no safety-net newline was inserted, as in
     `offset_for_token_true` (without it the statement is false: `cursor_boundary_fails_safety_net`).
 
@@ -575,5 +578,173 @@ theorem cursor_boundary_fails_ignored_wide_blank :
       trackCursors S raw ft [7] = [some 7] ∧
       isCharBoundary (reconstruct S ft) 7 = false := by
   decide +kernel
+
+/-! ## Fourth batch: `PiecesValid` holds for the closed model of the formatter
+
+  The hypothesis `PiecesValid ft` of the theorems of the third batch is discharged for the final token state
+  of `formatFull` (scanner, parser, consolidators, ignorers, token rules, wrapper stage with the search
+  inside): well-formed input gives well-formed pieces at every stage.  No step had to be weakened: no rule of
+  the model cuts inside a multi-byte character. -/
+
+/-- Step 1, the scanner: well-formed UTF-8 input is cut into tokens whose leading whitespace and text are
+    both well-formed UTF-8 (every token boundary is a character boundary, `C13.lex_char_boundaries`). -/
+theorem lex_pieces_valid (s : Bytes) (raw : List RawTok) (hv : ValidUtf8 s) (h : lex s = some raw) :
+    ∀ t ∈ raw, ValidUtf8 t.ws ∧ ValidUtf8 t.content :=
+  Utf8Pipeline.lex_pieces_valid s raw hv h
+
+/-- Step 2, `LowercaseKeywords`: ASCII lower-casing replaces ASCII letters by ASCII letters and keeps
+    every other byte, so the text is well-formed UTF-8 after it exactly when it was before. -/
+theorem lowercase_keeps_utf8 (c : Bytes) : validUtf8 (asciiLower c) = validUtf8 c :=
+  Utf8Pipeline.asciiLower_valid c
+
+/-- More generally, replacing ASCII bytes by ASCII bytes (texts related by `BSim`: same length, equal
+    bytes except where both are below 0x80) never changes whether a text is well-formed UTF-8. -/
+theorem ascii_replacement_keeps_utf8 (l l' : Bytes) (h : Utf8Pipeline.BSim l l') :
+    validUtf8 l = validUtf8 l' :=
+  Utf8Pipeline.validUtf8_bsim h
+
+/-- Step 2, the line-comment rule of `CommentFormatter` (one space inserted right behind the ASCII
+    slashes, ASCII whitespace removed at the end): a well-formed comment stays well-formed, for every
+    behaviour of `char::is_alphanumeric`. -/
+theorem line_comment_rule_keeps_utf8 (alnum : Bytes → Bool) (c c' : Bytes) (hv : ValidUtf8 c)
+    (h : formatLineComment alnum c = some c') : ValidUtf8 c' :=
+  Utf8Pipeline.formatLineComment_valid alnum c c' hv h
+
+/-- Step 2, the compiler-directive rule of `CommentFormatter` (ASCII upper-casing of a span of the
+    text): a well-formed directive stays well-formed. -/
+theorem directive_rule_keeps_utf8 (c c' : Bytes) (hv : ValidUtf8 c)
+    (h : formatCompilerDirective c = some c') : ValidUtf8 c' :=
+  Utf8Pipeline.formatCompilerDirective_valid c c' hv h
+
+/-- Step 2 together, with `TokenSpacing` and `EofNewline` (which change counters only) and the
+    conversion of the scanned tokens: the token state handed to the wrapper stage consists of
+    well-formed pieces — text and leading whitespace of every token — for every parser result. -/
+theorem pre_wrap_pieces_valid (O : Oracles) (raw : List RawTok)
+    (h : ∀ t ∈ raw, ValidUtf8 t.ws ∧ ValidUtf8 t.content) :
+    ∀ t ∈ (preWrap O raw).2.2, ValidUtf8 t.tok.content ∧ ValidUtf8 t.tok.ws :=
+  Utf8Pipeline.preWrap_valid O raw h
+
+/-- The prefix of blanks that `count_leading_whitespace` measures (bytes up to 0x20 and whole
+    U+3000 = `E3 80 80`) is always well-formed UTF-8, whatever the text is: a partial `E3 80` is not
+    counted as a blank.  This prefix of the last line is what the string re-indenter strips from
+    every line of a multi-line literal. -/
+theorem leading_blank_run_is_whole_characters (l : Bytes) : ValidUtf8 (l.take (countLeadingWs l)) :=
+  Utf8Pipeline.leadingWs_valid l
+
+/-- a space followed by a partial U+3000 (`E3 80`, then `A`): only the space is counted -/
+example : countLeadingWs [0x20, 0xE3, 0x80, 0x41] = 1 := by decide
+
+/-- Step 3, the string re-indenter: when `try_rewrite_string` replaces the text of a multi-line
+    literal, well-formed text stays well-formed (settings with ASCII line ending and indentation:
+    `settings_ascii`).  It cuts the literal behind CR / LF, removes from each line a prefix equal to the
+    (well-formed) blank run of the last line, or the whole line, and writes ASCII in front. -/
+theorem mls_rewrite_keeps_utf8 (S : Settings) (hS : AsciiSettings S) (c : Bytes) (ind cont : Nat) (c' : Bytes)
+    (hv : ValidUtf8 c) (h : mlsRewrite S c ind cont = some c') : ValidUtf8 c' :=
+  Utf8Pipeline.mlsRewrite_valid S hS c ind cont c' hv h
+
+/-- Step 3, the wrapper stage with the search inside (`OptimisingLineFormatter::format`): whatever
+    solutions the search returns, a token state of well-formed pieces is turned into one (solutions
+    change counters only, the two string passes change text only through the re-indenter and may
+    empty the leading whitespace). -/
+theorem wrap_stage_keeps_pieces_valid (cfg : Config) (lines : List Line) (ft ftz : FT)
+    (sols : List (Nat × Nat × Sol))
+    (h : ∀ t ∈ ft, ValidUtf8 t.tok.content ∧ ValidUtf8 t.tok.ws)
+    (h1 : wrapStageFull cfg lines ft = some (ftz, sols)) :
+    ∀ t ∈ ftz, ValidUtf8 t.tok.content ∧ ValidUtf8 t.tok.ws :=
+  Utf8Pipeline.wrapStageFull_valid cfg lines ft ftz sols h h1
+
+/-- Step 4.  **For well-formed UTF-8 input, whenever the closed model of the whole formatter
+    answers, its output is the reconstruction of a token state satisfying `PiecesValid`** (every token
+    text, and the verbatim whitespace of every ignored token, is well-formed UTF-8), for every
+    configuration and every behaviour of `char::is_alphanumeric`. -/
+theorem formatFull_pieces_valid (cfg : Config) (alnum : Bytes → Bool) (s out : Bytes) (hv : ValidUtf8 s)
+    (h : formatFull cfg alnum s = some out) :
+    ∃ ftz, out = reconstruct cfg.settings ftz ∧ PiecesValid ftz :=
+  Utf8Pipeline.formatFull_pieces_valid cfg alnum s out hv h
+
+/-- The same naming the state: `formatFullState` returns the scanned tokens and the final token
+    state of the closed model (the two arguments of `trackCursors`); `formatFull` is the
+    reconstruction of that state (`Utf8Pipeline.formatFull_eq_state`).  For well-formed input the
+    state satisfies both hypotheses `AsciiSettings` and `PiecesValid` of the third batch. -/
+theorem formatFull_state_pieces_valid (cfg : Config) (alnum : Bytes → Bool) (s : Bytes)
+    (raw : List RawTok) (ftz : FT) (hv : ValidUtf8 s)
+    (h : Utf8Pipeline.formatFullState cfg alnum s = some (raw, ftz)) :
+    lex s = some raw ∧ formatFull cfg alnum s = some (reconstruct cfg.settings ftz) ∧
+      AsciiSettings cfg.settings ∧ PiecesValid ftz := by
+  obtain ⟨h1, h2, h3⟩ := Utf8Pipeline.formatFullState_spec cfg alnum s raw ftz hv h
+  exact ⟨h1, h2, settings_ascii cfg, h3.piecesValid⟩
+
+/-- every answer of `formatFull` comes from such a state -/
+theorem formatFull_has_state (cfg : Config) (alnum : Bytes → Bool) (s out : Bytes)
+    (h : formatFull cfg alnum s = some out) :
+    ∃ raw ftz, Utf8Pipeline.formatFullState cfg alnum s = some (raw, ftz) ∧
+      out = reconstruct cfg.settings ftz :=
+  Utf8Pipeline.formatFullState_some_of_formatFull cfg alnum s out h
+
+/-- `cursor_in_gap_on_boundary` for the closed model, without hypotheses on the pieces: for
+    well-formed input, a cursor that was in the whitespace in front of a non-ignored token of the
+    final state is reported on a character boundary of the formatter's output.
+    Excluded as before: ignored tokens, inserted safety-net newlines, tokens starting at or beyond
+    4 GiB, arithmetic underflow (`relocate = none`). -/
+theorem formatFull_cursor_in_gap_on_boundary (cfg : Config) (alnum : Bytes → Bool) (s : Bytes)
+    (raw : List RawTok) (ftz : FT) (hv : ValidUtf8 s)
+    (h : Utf8Pipeline.formatFullState cfg alnum s = some (raw, ftz))
+    (idx c n : Nat) (t : FTok) (r : Nat)
+    (hk : ftz[idx]? = some t) (hi : t.fmt.ignored = false)
+    (hsn : noSafetyNetGo false ftz = true)
+    (hsmall : offsetForToken cfg.settings ftz idx < 4294967296)
+    (hr : relocate cfg.settings ftz { tokIdx := idx, pos := .whitespace c n } = some r) :
+    ∃ out, formatFull cfg alnum s = some out ∧ isCharBoundary out r = true := by
+  obtain ⟨_, h2, hS, hp⟩ := formatFull_state_pieces_valid cfg alnum s raw ftz hv h
+  exact ⟨_, h2, cursor_in_gap_on_boundary cfg.settings ftz idx c n t r hk hi hS hp hsn hsmall hr⟩
+
+/-- `cursor_on_boundary_unchanged_token` for the closed model, without hypotheses on the pieces:
+    for well-formed input, a cursor on a character boundary of the input, `o` bytes into the text of
+    the single-line input token `k`, when token `k` of the final state still has the same text, is
+    reported at `offset_for_token(k) + o`, on a character boundary of the formatter's output.
+    Excluded as before: the sticking case `o = 0`, inserted safety-net newlines, outputs of 4 GiB or
+    more; multi-line comments and strings: `formatFull_cursor_on_boundary_unchanged_multiline_token`. -/
+theorem formatFull_cursor_on_boundary_unchanged_token (cfg : Config) (alnum : Bytes → Bool) (s : Bytes)
+    (raw : List RawTok) (ftz : FT) (hv : ValidUtf8 s)
+    (h : Utf8Pipeline.formatFullState cfg alnum s = some (raw, ftz))
+    (k o : Nat) (t : RawTok) (t' : FTok)
+    (hk : raw[k]? = some t) (hk' : ftz[k]? = some t') (hsame : t'.tok.content = t.content)
+    (hm : isMultilineRawKind t.kind = false) (ho : o ≤ t.content.length)
+    (hfirst : 0 < o ∨ 0 < t.ws.length ∨ k = 0)
+    (hsn : noSafetyNetGo false ftz = true)
+    (hsmall : (reconstruct cfg.settings ftz).length < 4294967296)
+    (hb : isCharBoundary s (((raw.take k).map RawTok.strLen).sum + t.ws.length + o) = true) :
+    ∃ out, formatFull cfg alnum s = some out ∧
+      trackCursors cfg.settings raw ftz [((raw.take k).map RawTok.strLen).sum + t.ws.length + o]
+        = [some (offsetForToken cfg.settings ftz k + o)] ∧
+      isCharBoundary out (offsetForToken cfg.settings ftz k + o) = true := by
+  obtain ⟨h1, h2, hS, hp⟩ := formatFull_state_pieces_valid cfg alnum s raw ftz hv h
+  have hloss : raw.flatMap (fun t => t.ws ++ t.content) = s := lex_lossless_with false s raw h1
+  rw [← hloss] at hb
+  exact ⟨_, h2, cursor_on_boundary_unchanged_token cfg.settings raw ftz k o t t' hk hk' hsame hm ho hfirst
+    hS hp hsn hsmall hb⟩
+
+/-- The same for multi-line comments and multi-line strings (position conditions as in
+    `cursor_in_unchanged_multiline_token`). -/
+theorem formatFull_cursor_on_boundary_unchanged_multiline_token (cfg : Config) (alnum : Bytes → Bool)
+    (s : Bytes) (raw : List RawTok) (ftz : FT) (hv : ValidUtf8 s)
+    (h : Utf8Pipeline.formatFullState cfg alnum s = some (raw, ftz))
+    (k o : Nat) (t : RawTok) (t' : FTok)
+    (hk : raw[k]? = some t) (hk' : ftz[k]? = some t') (hsame : t'.tok.content = t.content)
+    (hm : isMultilineRawKind t.kind = true) (ho : o ≤ t.content.length)
+    (hfirst : 0 < o ∨ 0 < t.ws.length ∨ k = 0)
+    (hcol : firstLen (t.content.drop o) < 65536) (hnl : countByte 0x0A (t.content.drop o) < 65536)
+    (hsn : noSafetyNetGo false ftz = true)
+    (hsmall : (reconstruct cfg.settings ftz).length < 4294967296)
+    (hb : isCharBoundary s (((raw.take k).map RawTok.strLen).sum + t.ws.length + o) = true) :
+    ∃ out, formatFull cfg alnum s = some out ∧
+      trackCursors cfg.settings raw ftz [((raw.take k).map RawTok.strLen).sum + t.ws.length + o]
+        = [some (offsetForToken cfg.settings ftz k + o)] ∧
+      isCharBoundary out (offsetForToken cfg.settings ftz k + o) = true := by
+  obtain ⟨h1, h2, hS, hp⟩ := formatFull_state_pieces_valid cfg alnum s raw ftz hv h
+  have hloss : raw.flatMap (fun t => t.ws ++ t.content) = s := lex_lossless_with false s raw h1
+  rw [← hloss] at hb
+  exact ⟨_, h2, cursor_on_boundary_unchanged_multiline_token cfg.settings raw ftz k o t t' hk hk' hsame hm ho
+    hfirst hcol hnl hS hp hsn hsmall hb⟩
 
 end Pasfmt.C15
